@@ -382,6 +382,8 @@ def c16_run(prop, spec, workdir, tier, seed, t0):
             viol(base + ":nondeterministic", "%s: two runs on the identical request produced different bytes" % p["pkg"], wit)
         for n in p.get("duplicate_names") or []:
             viol(base + ":duplicate-output-name", "%s: output file name emitted twice: %s" % (p["pkg"], n), dict(wit, files=p["files"]))
+        if p.get("multi_file"):
+            viol(base + ":multi-file-request", "%s: %s" % (p["pkg"], p["multi_file"]), wit)
         for n in p.get("bad_names") or []:
             viol(base + ":undocumented-output-name", "%s: output file name not of the documented form: %s" % (p["pkg"], n), dict(wit, files=p["files"]))
         for e in p.get("parse_errors") or []:
